@@ -352,13 +352,34 @@ def gaussian_clause(model, rep, funcs):
 
     MGa = Matcher(f)
     role: dict = {}
-    for _, bb in MGa.find("sum((($x - $c) / $sg) ** 2 for $x, $c, $sg in zip($crds, $cen, $sig))"):
-        if all(isinstance(bb[k][1], ast.Name) for k in ("crds", "cen", "sig")):
-            role["center_subpix"] = bb["cen"][1].id
-            role["sigma_px"] = bb["sig"][1].id
-            for _, b2 in MGa.find("$crds = np.indices($shp, ...)", {"crds": bb["crds"]}):
-                if isinstance(b2["shp"][1], ast.Name):
-                    role["shape_px"] = b2["shp"][1].id
+    # roles and exponent are read off a symbolic-term evaluation (sa/domains/terms.py): the argument of exp() and the zip(...) that pairs coordinates, centre
+    # and sigma per axis look the same whether the sum over axes is a generator inside sum() or an accumulation loop
+    from ..domains.terms import T as _T, TermDomain as _TD, freeze as _freeze
+    tdom = _TD()
+    tit = Interp(model, tdom, depth=0)
+    tz, texp = [], []
+
+    def t_on_call(interp, fn_, node, callee, args, kwargs, env):
+        if fn_ is not f:
+            return
+        nm = (dotted(node.func) or norm_src(node.func)).split(".")[-1]
+        if nm == "zip" and len(node.args) == 3:
+            tz.append((node, [_freeze(a) for a in args]))
+        if nm == "exp" and args:
+            texp.append((node, _freeze(args[0])))
+
+    tit.on_call.append(t_on_call)
+    try:
+        tit.run(f)
+    except Exception:  # pragma: no cover
+        pass
+    if len(tz) == 1 and all(isinstance(a, ast.Name) for a in tz[0][0].args):
+        zn = tz[0][0]
+        role["center_subpix"] = zn.args[1].id
+        role["sigma_px"] = zn.args[2].id
+        for _, b2 in MGa.find("$crds = np.indices($shp, ...)"):
+            if isinstance(b2["crds"][1], ast.Name) and b2["crds"][1].id == zn.args[0].id and isinstance(b2["shp"][1], ast.Name):
+                role["shape_px"] = b2["shp"][1].id
 
     def on_stmt(interp, fn, st, env):
         if fn is f:
@@ -396,28 +417,26 @@ def gaussian_clause(model, rep, funcs):
             det += " (the centre is the far corner shape/scale + shift/scale: the peak falls on the last voxel)"
         rep.ob("A", f.anchor, "the Gaussian is centred at the box centre (n-1)/2 plus shift/scale, n = round(shape/scale)", ok, det, node=f.node, fn=f,
                clause="5 gaussian", stmt="from_gaussian centre")
-    # exponent: -0.5 * sum_k ((x_k - c_k)/sigma_k)**2  : the power must be inside the sum
-    exps = [cc for cc in calls_in(f) if (dotted(cc.func) or "").endswith("exp")]
+    # exponent: -0.5 * sum_k ((x_k - c_k)/sigma_k)**2  : the power must be inside the sum (term comparison)
     ok2 = None
     det2 = ""
-    if exps:
-        e = MGa.expr(exps[0].args[0], keep=tuple(role.values()))
-        sums = [s for s in ast.walk(e) if isinstance(s, ast.Call) and dotted(s.func) == "sum"]
-        if sums:
-            s = sums[0]
-            inner = s.args[0]
-            elt = inner.elt if isinstance(inner, (ast.GeneratorExp, ast.ListComp)) else None
-            squared_inside = isinstance(elt, ast.BinOp) and isinstance(elt.op, ast.Pow) and norm_src(elt.right) == "2"
-            # is the sum itself raised to a power?
-            squared_outside = any(isinstance(p, ast.BinOp) and isinstance(p.op, ast.Pow) and p.left is s for p in ast.walk(e))
-            ok2 = squared_inside and not squared_outside
-            det2 = f"exponent `{norm_src(e)[:100]}`" + ("; the square is applied to the sum over axes, not to each term: level sets are planes, not spheres" if squared_outside else "")
-            neg_half = "-0.5" in norm_src(e).replace(" ", "") or "/2" in norm_src(e).replace(" ", "")
-            ok2 = ok2 and neg_half
-            if isinstance(elt, ast.BinOp) and squared_inside:
-                base = elt.left
-                frac = isinstance(base, ast.BinOp) and isinstance(base.op, ast.Div) and isinstance(base.left, ast.BinOp) and isinstance(base.left.op, ast.Sub)
-                ok2 = ok2 and frac
+    if len(texp) == 1 and len(tz) == 1:
+        e = texp[0][1]
+        z = tz[0][1]
+        el = [_T("elem", (a,)) for a in z]
+        X = _T("op", ("Pow", _T("op", ("Div", _T("op", ("Sub", el[0], el[1])), el[2])), _T("const", ("2",))))
+        S = _T("fold", ("Add", _T("const", ("0",)), X))
+        half = [_T("un", ("USub", _T("const", ("0.5",)))), _T("const", ("-0.5",))]
+        good = [_T("op", ("Mult", h, S)) for h in half] + [_T("op", ("Mult", S, h)) for h in half] + \
+            [_T("op", ("Div", _T("un", ("USub", S)), _T("const", ("2",)))), _T("un", ("USub", _T("op", ("Div", S, _T("const", ("2",))))))]
+        ok2 = e in good
+        det2 = "" if ok2 else f"exponent {e!r}"[:260]
+        if not ok2:
+            folds = [t_ for t_ in __import__("sa.domains.terms", fromlist=["subterms"]).subterms(e) if t_.op == "fold"]
+            if not folds:
+                det2 += "; no sum over the axes (a power applied to the sum, or a missing axis, changes the level sets from spheres to something else)"
+            elif folds[0].args[2] != X:
+                det2 += f"; summand {folds[0].args[2]!r} is not ((x - c) / sigma)**2 of one and the same axis"[:200]
     rep.ob("H", f.anchor, "the exponent is -1/2 * sum_k ((x_k - c_k)/sigma_k)**2 (square inside the sum over axes)", ok2, det2, node=f.node, fn=f,
            clause="5 gaussian", stmt="from_gaussian exponent")
 
